@@ -691,6 +691,41 @@ func sanitize(v any) any {
 	return v
 }
 
+// TestEnumPathPrefixes: every prefix of a set of path and script texts that use every fragment and
+// operator kind, followed by nothing, blanks, a tab or a stray closer - the texts a user is in the
+// middle of typing. The JSONPath parser is a hand written scanner with a loop per bracket form; a
+// loop that waits for a byte that never comes does not return.
+func TestEnumPathPrefixes(t *testing.T) {
+	if i, n := vrt.Shard(); n > 1 && i != 0 {
+		return // once is enough
+	}
+	texts := []string{
+		"$.a[1]['b'][?(@.x == 3)]..c[1:2:3][*]", "@.a[?(@.b in [1, 2, 'x'])]", "$[1, 'a', -2]", "$..[?(@.a =~ /x\\/y/)]", "$[ -3 : 7 : -1 ].k",
+		"$.list[?(@.sub[2] > 1.5e3 && !(@.k == 'v' || @.n == null))].x", "$[?(length(@.a) >= 2 && count(@.b[*]) < 3)]", "$['a b', \"c\"]", "$.a[?@.b == true]",
+		"$[?(@.a has false)][?(@ exists true)]", "$[?(match(@.a, 'x.y') && search(@.b, \"z\"))]", "$.x[?(@.a + 1 - 2 * 3 / 4 != 5)]", "$[?(@.a empty true)]", "a.b[0]", "[1][2]", "$[:]", "$[::]", "$[1:]",
+	}
+	tails := []string{"", " ", "  ", "\t", "]", ")", " ]", "\n"}
+	n := 0
+	for _, text := range texts {
+		for k := 0; k <= len(text); k++ {
+			for _, tail := range tails {
+				in := []byte(text[:k] + tail)
+				vrt.Eval(suite, "total", Case{Target: "jp", Input: in}, Run)
+				vrt.Eval(suite, "total", Case{Target: "script", Input: in}, Run)
+				n += 2
+			}
+		}
+	}
+	// the same texts as arguments of a plan (asm.NewPlan reads paths out of strings)
+	for _, text := range texts[:6] {
+		for k := 1; k <= len(text); k++ {
+			vrt.Eval(suite, "total", Case{Target: "plan", Tree: []any{"get", text[:k] + " "}}, Run)
+			n++
+		}
+	}
+	suite.AddExtra("path_prefix_cases", int64(n))
+}
+
 func TestPropRandom(t *testing.T) {
 	vrt.Rapid(t, suite, "total", vrt.Scale(40000, 250000), drawCase, Run)
 }
